@@ -5,6 +5,7 @@ import subprocess
 import sys
 
 from harness import casgen, common, sessions
+from harness.common import bud
 from harness.props import c05
 
 PROP = "C14"
@@ -153,7 +154,7 @@ def run(ctx, out, budget):
                 "re-run in fresh interpreters with PYTHONHASHSEED in a seed set and every SHA-256 must agree across seeds. "
                 "Non-trivial = distinct (scenario, seed) pairs with >= 2 structures.")
     rng = ctx.rng(0)
-    n = 40 if budget == "quick" else 1800
+    n = bud(budget, 40, 1800)
     seeds = SEEDS_QUICK if budget == "quick" else SEEDS_THOROUGH
     gens = [casgen.CasGen(rng, n_types=rng.randint(1, 6), n_fs=rng.randint(1, 9), xmi_safe=True).build() for _ in range(n)]
     # the descriptors of the generated type systems (stage A, this process), to load them back from XML
